@@ -294,7 +294,8 @@ def check_message(m, tier):
         rec("C01", "unpack(pack(m)) succeeds", m, f"{type(e).__name__}: {e}")
     # ---- C04
     freedoms = [rfc.Freedom(extra_len=1), rfc.Freedom(extra_len=3), rfc.Freedom(true_octet=0x01), rfc.Freedom(true_octet=0x80), rfc.Freedom(explicit_defaults=True),
-                rfc.Freedom(trailing=True), rfc.Freedom(extra_len=2, true_octet=0x7F, explicit_defaults=True, trailing=True)]
+                rfc.Freedom(trailing=True), rfc.Freedom(extra_len=2, true_octet=0x7F, explicit_defaults=True, trailing=True),
+                rfc.Freedom(trailing=2), rfc.Freedom(trailing=3), rfc.Freedom(trailing=4, extra_len=1)]
     if tier == "quick":
         freedoms = freedoms[:: 1]
     for fr in freedoms:
@@ -326,7 +327,7 @@ def main():
     out = {"evaluations": total, "distinct_nontrivial": total, "per_property": n_eval, "messages": len(msgs),
            "violations": list(known_seen.values()) + violations, "wall_s": round(time.time() - t0, 2),
            "bound": f"{len(msgs)} messages: all 9 kinds, each field over its boundary classes one factor at a time ({len(INTS)} integers, {len(STRS)} strings, {len(BYTS)} octet strings, "
-                    f"{len(ALL_FILTERS)} filter shapes incl. every choice, {len(ALL_CONTROLS)} control lists, {len(RESULTS)} results) + seeded random combinations; 7 encoding-freedom combinations each for C04"}
+                    f"{len(ALL_FILTERS)} filter shapes incl. every choice, {len(ALL_CONTROLS)} control lists, {len(RESULTS)} results) + seeded random combinations; 10 encoding-freedom combinations each for C04 (incl. trailing elements whose tag number coincides with a known component in another class)"}
     json.dump(out, sys.stdout, default=str)
 
 
